@@ -27,8 +27,23 @@ def orientRows (s : List IPt) : List (List Int) := s.map (fun p => p ++ [1])
 def insphereRows (s : List IPt) (q : IPt) : List (List Int) :=
   (s ++ [q]).map (fun p => p ++ [sqNorm p, 1])
 
+/-- "lifted" in-sphere matrix (Rust `insphere_lifted`): coordinates relative to the first vertex
+`p0`, squared norm of the relative vector last; rows for the remaining vertices, query point last.
+A `(D+1) × (D+1)` matrix for a `D`-simplex. -/
+def liftedRows (s : List IPt) (q : IPt) : List (List Int) :=
+  match s with
+  | [] => []
+  | p0 :: rest => (rest ++ [q]).map (fun p =>
+      let r := (p.zip p0).map (fun (a, b) => a - b)
+      r ++ [sqNorm r])
+
 def orientDet (s : List IPt) : Int := det (orientRows s)
 def insphereDet (s : List IPt) (q : IPt) : Int := det (insphereRows s q)
+def liftedDet (s : List IPt) (q : IPt) : Int := det (liftedRows s q)
+
+/-- the sign `(−1)^(D+1)` relating the two in-sphere formulations in dimension `D`:
+`liftedDet s q = liftedParity D * insphereDet s q` (proved in Props/C12 `lifted_eq_insphere`) -/
+def liftedParity (D : Nat) : Int := if D % 2 == 0 then -1 else 1
 
 /-- exact orientation sign of a simplex (`+1`, `0`, `-1`) -/
 def orientSign (s : List IPt) : Int := sgn (orientDet s)
